@@ -245,6 +245,11 @@ def run(chk, facts):
         chk.ob("R-C17-5", "total-order", ok, "members are sorted by (position, original index)" if ok else "members are sorted by a key that is not total", loc_e)
     except AnchorError as e:
         chk.anchor_fail("R-C17-5", e)
+    # "defined in a Mamba file ... exists in the emitted module": the module of a file is the one written to that file's own path
+    from . import c13
+    from .common import borrow
+    borrow(chk, facts, c13, ("R-C13-3|derive:", "R-C13-3|zip", "R-C13-3|extension", "R-C13-3|one-per-path:", "R-C13-3|sources-zip-paths", "R-C13-3|pipeline-order", "R-C13-3|anchor"),
+           {"R-C13-3": "the module emitted for a file is written to that file's own output path (pairing by position, shared with C13)"})
     chk.notes.append("C17: field-mapping tables of the definition arms, order-preservation of list derivations, operator/dunder round trip.")
 
 
